@@ -1,6 +1,8 @@
 """C12 - dtype strings and formats determine each other in every notation."""
 from . import dtype, sizes
 
+from . import routes, fresh, flags, sizes, conv, dtype, carriers, funcs, ops, strings, pipeline, widths
+
 EXPLANATION = (
     "R1 language inclusion by automata: each writer template of the dtype refresher (fields typed from their expressions: sign letters, positive n_word, any-integer n_frac incl. "
     "negative, non-negative m for Q, optional '-complex') is compiled to an NFA, the reader patterns are parsed with CPython's own regex parser, and casefold(L(writer)) is shown "
@@ -20,3 +22,4 @@ def run(ck):
     dtype.refresh_after_store(ck, "C12.R5")
     dtype.notation_parameter(ck, "C12.R4")
     sizes.resize_rules(ck, {"refresh": "C02.R5"})
+    fresh.no_class_state_writes(ck, "C20.R7")
